@@ -290,8 +290,21 @@ def execute(sc):
                 b = [(x[0], x[2]) for x in skeleton(res3.rec) if x[0] in ('msg', 'sep')]
                 if a != b:
                     V.add('C16/decimal-mark', 'differs', 'time columns / separators differ between decimal marks: %r' % (first_diff([(k, None, t) for k, t in a], [(k, None, t) for k, t in b]),))
+            # the same times written with another number of decimals (six; trailing zeros dropped): same values, same display
+            sc4 = copy.deepcopy(sc)
+            sc4['config']['time_spelling'] = 'long' if sc['seed'] % 2 else 'short'
+            st4, res4, tr4, metas4 = S.run(sc4)
+            V.bump('fault_time_spelt_' + sc4['config']['time_spelling'])
+            if res4.exception is not None:
+                V.add('C16/decimal-mark', 'spelling-exception', res4.traceback[-1200:])
+            else:
+                a = [(x[0], x[2]) for x in base if x[0] in ('msg', 'sep')]
+                b = [(x[0], x[2]) for x in skeleton(res4.rec) if x[0] in ('msg', 'sep')]
+                if a != b:
+                    V.add('C16/decimal-mark', 'spelling', 'time columns / separators differ when the same times are written with %s decimals: %r' % (
+                        sc4['config']['time_spelling'], first_diff([(k, None, t) for k, t in a], [(k, None, t) for k, t in b]),))
     nontrivial = V.counters.get('separators_expected', 0) > 0 and V.counters.get('adjacent_pairs_without_separator', 0) > 0
     r = c06.finish(sc, st, res, V, nontrivial)
     r['nt_keys'] = [gaps + repr([it[1] for it in sc['intents'] if it[0] == 'cmd'])] if nontrivial else []
-    r['evals'] = 3
+    r['evals'] = 3 + V.counters.get('fault_time_spelt_long', 0) + V.counters.get('fault_time_spelt_short', 0)
     return r
